@@ -1,5 +1,6 @@
 import LJT.Proofs.Nbits
 import LJT.Proofs.Huff
+import LJT.Proofs.HuffOpt9
 /-!
 # C19 - Generated Huffman tables are always valid, complete prefix codes
 
@@ -86,6 +87,51 @@ example : (mkCDerived true false ⟨Gen.stdDcLumBits, Gen.stdDcLumVals⟩).isSom
     (mkDDerived true false ⟨Gen.stdDcLumBits, Gen.stdDcLumVals⟩).isSome = true := by
   unfold mkCDerived mkDDerived
   simp only [stdDc_codes, stdDc_sizes]
+  decide +kernel
+
+open LJT.Huff in
+/-- **The optimal-table generator, code lengths** (`jpeg_gen_optimal_table`, Annex K.2 as coded; the model
+is tied to the real function by the `genopt` operation and by every optimised / progressive file of C04).
+
+For every histogram `freq0` - at most 257 entries, the counts of the 256 real symbols adding up to less than
+10^9 - the function either leaves through `JERR_HUFF_CLEN_OVERFLOW` (a Huffman code length above 32, which
+needs Fibonacci-like counts; see the tie for the depths up to 32 the property names) or returns `bits[]` with:
+
+* 17 entries, `bits[0] = 0` (`BitsOK.zero`), and `Σ_{l=1..16} bits[l]` = the number of symbols with a
+  non-zero frequency (`count`): every such symbol gets a length in 1..16, none is dropped by the limiting step;
+* no entry above 255: the `UINT8` copy-out loses nothing (`small`);
+* Kraft: `Σ_l bits[l]·2^(16-l) + 2^(16-L) = 2^16` where `L` is the longest length in use (`kraft`) - the code
+  is complete except for exactly one code point of the longest length, the one the pseudo-symbol 256
+  reserved, so no code is all ones;
+* the table passes the code-space check of `jpeg_make_c_derived_tbl` / `jpeg_make_d_derived_tbl`
+  (`codes t.bits = some _`), which makes `derived_tables_inverse`, `codes_prefix_free` and
+  `no_code_is_all_ones` below apply to every generated table. -/
+theorem gen_optimal_table_code_lengths (freq0 : List Nat) (hlen : freq0.length ≤ 257)
+    (htot : ((List.range 256).map (freq0.getD · 0)).sum < 1000000000) :
+    genOptimalTable freq0 = .clenOverflow ∨
+    ∃ t, genOptimalTable freq0 = .ok t ∧ t.bits.length = 17 ∧
+      BitsOK (fun l => t.bits.getD l 0) (nzReal freq0).length ∧ (∃ cs, codes t.bits = some cs) :=
+  genOptimalTable_bits freq0 hlen htot
+
+open LJT.Huff in
+/-- **The pseudo-symbol ends on the deepest level** (what makes "skip the last symbol" in the loop that fills
+`huffval[]` correct, and what reserves the all-ones code point): after the merge loop, no `codesize[]` entry
+exceeds that of the last slot, which is the pseudo-symbol 256; every real symbol has a code length of at least
+1; and there is one `codesize[]` entry per non-zero frequency. -/
+theorem gen_optimal_pseudo_symbol_deepest (freq0 : List Nat) (hlen : freq0.length ≤ 257)
+    (htot : ((List.range 256).map (freq0.getD · 0)).sum < 1000000000)
+    (hno : (genCs freq0).any (· > 32) = false) :
+    (genCs freq0).length = (nzReal freq0).length + 1 ∧
+    (∀ c ∈ genCs freq0, c ≤ (genCs freq0).getD (nzReal freq0).length 0) ∧
+    (1 ≤ (nzReal freq0).length → ∀ c ∈ genCs freq0, 1 ≤ c) :=
+  (genBits_ok freq0 hlen htot hno).2
+
+-- non-vacuity: a histogram with a tie (the counts 1, 1) that meets the hypotheses; the kernel evaluates the model
+open LJT.Huff in
+example : genOptimalTable [5, 1, 1, 2] =
+    .ok ⟨[0, 1, 1, 1, 1, 0, 0, 0, 0, 0, 0, 0, 0, 0, 0, 0, 0], [0, 3, 1, 2]⟩ := by decide +kernel
+open LJT.Huff in
+example : ([5, 1, 1, 2] : List Nat).length ≤ 257 ∧ ((List.range 256).map (([5, 1, 1, 2] : List Nat).getD · 0)).sum < 1000000000 := by
   decide +kernel
 
 end LJT.C19
